@@ -616,6 +616,7 @@ func TestVFReplay(t *testing.T) {
 	}
 	out, _ := cmd.CombinedOutput()
 	txt := string(out)
+	lastReplayOutput = txt
 	outcome := ""
 	for _, line := range strings.Split(txt, "\n") {
 		if strings.HasPrefix(line, "VF-OUTCOME: ") {
@@ -661,6 +662,8 @@ func firstLineWith(txt string, subs ...string) string {
 	return ""
 }
 
+var lastReplayOutput string
+
 func cmdReplay(args []string) {
 	if len(args) < 1 {
 		fatalf("usage: vsym replay <replay.json>")
@@ -669,6 +672,9 @@ func cmdReplay(args []string) {
 	os.MkdirAll(work, 0o755)
 	defer os.RemoveAll(work)
 	ok, detail := nativeReplay(work, args[0])
+	if os.Getenv("VSYM_REPLAY_VERBOSE") != "" {
+		fmt.Println(lastReplayOutput)
+	}
 	fmt.Printf("replay %s: reproduced=%v (%s)\n", args[0], ok, detail)
 	os.RemoveAll(work)
 	if ok {
